@@ -110,6 +110,17 @@ func genPanicSites(repo string, o out) {
 						fn := src(x.Fun)
 						if fn == "panic" {
 							add("panic", x)
+						} else if fn == "make" && len(x.Args) >= 2 {
+							// make with a computed length/capacity panics ("makeslice: len out of range") or exhausts memory
+							computed := false
+							for _, a := range x.Args[1:] {
+								if _, lit := a.(*ast.BasicLit); !lit {
+									computed = true
+								}
+							}
+							if computed {
+								add("make", x)
+							}
 						} else if i := strings.LastIndex(fn, "."); strings.HasPrefix(fn[i+1:], "Must") {
 							add("must", x)
 						}
